@@ -358,7 +358,7 @@ class PathResult:
 
 
 class Engine:
-    def __init__(self, timeout_ms=20000, max_paths=20000, max_seconds=None, seed=0):
+    def __init__(self, timeout_ms=60000, max_paths=20000, max_seconds=None, seed=0):
         self.timeout_ms = timeout_ms
         self.max_paths = max_paths
         self.max_seconds = max_seconds
@@ -415,7 +415,9 @@ class Engine:
     def _check(self, *extra):
         t = time.time()
         r = self.solver.check(*extra)
-        self.stats['solver_s'] += time.time() - t
+        dt_ = time.time() - t
+        self.stats['solver_s'] += dt_
+        self.stats['max_query_s'] = max(self.stats.get('max_query_s', 0.0), dt_)
         self.stats['queries'] += 1
         if r == z3.unknown:
             self.stats['unknown'] += 1
@@ -581,7 +583,9 @@ class Engine:
         s.add(z3.Not(formula))
         t = time.time()
         r = s.check()
-        self.stats['solver_s'] += time.time() - t
+        dt_ = time.time() - t
+        self.stats['solver_s'] += dt_
+        self.stats['max_query_s'] = max(self.stats.get('max_query_s', 0.0), dt_)
         self.stats['queries'] += 1
         self._cross_check(s, r)
         if r == z3.sat:
@@ -708,6 +712,14 @@ def _sides(c):
     return None
 
 
+def _addend_magnitude(m, term, depth=0):
+    """largest |addend| of a (nested) sum under the model: a side such as 1000*cur - 1000*thr carries the rounding noise
+    of its addends, not of its (cancelled) value"""
+    if depth < 4 and z3.is_app(term) and term.decl().kind() in (z3.Z3_OP_ADD, z3.Z3_OP_SUB) and term.num_args() > 1:
+        return max(_addend_magnitude(m, term.arg(i), depth + 1) for i in range(term.num_args()))
+    return abs(model_value(m, term))
+
+
 def _min_rel_slack(m, atoms):
     worst = None
     for c in atoms:
@@ -716,9 +728,9 @@ def _min_rel_slack(m, atoms):
             continue
         try:
             lo, hi = model_value(m, sd[0]), model_value(m, sd[1])
+            sc = max(_addend_magnitude(m, sd[0]), _addend_magnitude(m, sd[1]), Fraction(1, 10**9))
         except ValueError:
             continue
-        sc = max(abs(lo), abs(hi), Fraction(1, 10**9))
         rel = (hi - lo) / sc
         if worst is None or rel < worst:
             worst = rel
@@ -766,10 +778,9 @@ def interior_model(eng, res, extra=(), timeout_ms=5000, margin=Fraction(1, 10**6
             if sd is None:
                 continue
             try:
-                lo, hi = model_value(m, sd[0]), model_value(m, sd[1])
+                sc = max(_addend_magnitude(m, sd[0]), _addend_magnitude(m, sd[1]), Fraction(1, 1000))
             except ValueError:
                 continue
-            sc = max(abs(lo), abs(hi), Fraction(1, 1000))
             s.add(sd[1] - sd[0] >= z3.RealVal(sc * margin * 100))
         r = s.check()
         if r != z3.sat:
